@@ -584,12 +584,14 @@ def generate(prop, seed, tier, weights, n_ops=(4, 14), n_incompat_max=2, with_dv
     orng = s('ops')
     ops = gen_ops(orng, orng.randint(*n_ops), weights)
     if 'fix' in weights and orng.random() < 0.3:
-        # directed motif: the same full vector is decoded (both create flags) under two different single fixes whose values
-        # are that vector's own entries - results must not depend on what was fixed (and decoded) before
+        # directed motif: the same full vector is decoded (both create flags) with nothing fixed and under two different
+        # single fixes whose values are that vector's own entries - results must not depend on what was fixed (and
+        # decoded) before
         u = [round(orng.random(), 4) for _ in range(8)]
         a, b = orng.randrange(64), orng.randrange(64)
         v = {'kind': 'full', 'u': u}
-        motif = [['fix', a, u, None], ['decode', v, False], ['decode', v, True], ['free', a, 'exact'],
+        motif = [['decode', v, False], ['decode', v, True],
+                 ['fix', a, u, None], ['decode', v, False], ['decode', v, True], ['free', a, 'exact'],
                  ['fix', b, u, None], ['decode', v, False], ['decode', v, True], ['free', b, 'exact']]
         at = orng.randint(0, len(ops))
         ops[at:at] = motif
